@@ -7,7 +7,7 @@
    beneath.  Monitors: Spec/WorldSpec.v (c17_step, c16_step, c18_step,
    c09_step); proofs: Proofs/W_C17.v. *)
 From VF Require Import Base.Prelude Model.Cache Model.Session Model.Middleware Corr.WorldCorr Spec.WorldSpec.
-From VF Require Import Proofs.WorldBase Proofs.VerifyProofs Proofs.W_C17 Proofs.W_Example.
+From VF Require Import Proofs.WorldBase Proofs.VerifyProofs Proofs.ServeLemmas Proofs.SessionProofs Proofs.W_C17 Proofs.W_C17H Proofs.W_Example.
 Open Scope N_scope.
 
 (* For every input of a ready instance: no panic flag, never the harness's
@@ -52,6 +52,44 @@ Theorem C09_step : forall (E : env) (cfg : config) (st : inst) (now : time) (rq 
                           (rnd : istr * istr * istr) (ans : option answer),
   c09_step (snd (serve E cfg st now rq rnd ans)) = true.
 Proof. exact c09_serve. Qed.
+(* HEALING.  Whatever the browser's cookies are when a login completes -- junk,
+   values made under another or an older key, renamed or truncated cookies under
+   ANY of the names the middleware reads, as long as the numbered chunk cookies
+   present form a prefix 0..a-1 / 0..r-1 (prefix_at; a browser only ever holds
+   such jars unless someone deletes a middle chunk by hand) -- the Set-Cookie
+   headers of the successful callback (302) leave a jar in which every cookie is
+   sealed under the deployment key for its own name, with no chunk cookie beyond
+   the new counts, and from which the next request reads exactly the ID token,
+   refresh token and main-cookie values the callback stored.  So a login started
+   from unusable cookies completes without manual cookie deletion. *)
+Theorem C17_login_heals : forall (E : env) (cfg : config) (st : inst) (now now' : time) (rq : request)
+                                 (rnd : istr * istr * istr) (ans : option answer) (ca cr : nat),
+  i_ready st = true -> is_excluded E cfg rq = false -> is_logout cfg rq = false -> is_callback cfg rq = true ->
+  prefix_at ca cr (q_jar rq) ->
+  let r := snd (serve E cfg st now rq rnd ans) in
+  let j' := apply_cookies (c_key cfg) (q_jar rq) (r_cookies r) in
+  r_status r = 302 ->
+  exists id rt, ans = Some (AOk id rt)
+    /\ contiguous (c_key cfg) j'
+    /\ holds_session (c_key cfg) j' (callback_sd E now (carried cfg now rq) id rt)
+    /\ (session_too_old now' (s_main (callback_sd E now (carried cfg now rq) id rt)) = false ->
+        let sv := callback_sd E now (carried cfg now rq) id rt in
+        get_access (nchunks E) (load (c_key cfg) now' j') = get_access (nchunks E) sv
+        /\ get_refresh (nchunks E) (load (c_key cfg) now' j') = get_refresh (nchunks E) sv
+        /\ s_main (load (c_key cfg) now' j') = s_main sv).
+Proof. exact (fun E cfg st now now' rq rnd ans ca cr => h_serve_heals E cfg st now rq rnd ans ca cr now'). Qed.
+Print Assumptions C17_login_heals.
+
+(* one Save whose chunk lists cover the jar (cov) heals any prefix jar: the
+   session-level statement behind it, for every session value *)
+Theorem C17_save_heals : forall (k : N) (j : jar) (sd : sdata) (ca cr : nat),
+  prefix_at ca cr j ->
+  cov ca (length (s_achunks sd)) (s_marked_a sd) (s_jar_a sd) ->
+  cov cr (length (s_rchunks sd)) (s_marked_r sd) (s_jar_r sd) ->
+  holds_session k (apply_cookies k j (save_cookies sd)) sd.
+Proof. exact save_heals. Qed.
+Print Assumptions C17_save_heals.
+
 Print Assumptions C09_step.
 
 (* Non-vacuity: on the concrete deployment of W_Example.v a protected request
@@ -77,4 +115,33 @@ Example C17_nonvacuous :
 Proof.
   split; [split; [exact exE_ok|split; [exact excfg_ok|split; [apply inst_ok_fresh|intros id; apply fresh_for_fresh]]]|].
   vm_compute. repeat split.
+Qed.
+
+(* Non-vacuity of the healing theorem: a browser in the middle of a login whose
+   jar also holds a junk refresh cookie, a junk ID-token chunk 0 and an ID-token
+   chunk 1 sealed under another key.  The callback succeeds (302), the premises
+   of C17_login_heals hold with a = 2, r = 0, the healed jar is exactly the three
+   fresh cookies, and the next protected request from it is forwarded. *)
+Example C17_heals_nonvacuous :
+  let j := (CRef, Junk) :: (CAccChunk 0, Junk) :: (CAccChunk 1, Sealed 9 (CAccChunk 1) [(1, VC [PSlice 10 0])])
+           :: ex_jar_pending in
+  let rq := ex_callback j in
+  let r := snd (serve exE excfg ex_inst ex_now rq ex_rnd (Some (AOk 10 16))) in
+  let j' := apply_cookies (c_key excfg) j (r_cookies r) in
+  (i_ready ex_inst = true /\ is_excluded exE excfg rq = false /\ is_logout excfg rq = false
+   /\ is_callback excfg rq = true /\ r_status r = 302)
+  /\ prefix_at 2 0 j
+  /\ map fst j' = [CRef; CAcc; CMain]
+  /\ forwarded (snd (serve exE excfg (fst (serve exE excfg ex_inst ex_now rq ex_rnd (Some (AOk 10 16))))
+                           (ex_now + 1000000000)%Z (ex_req 5 j') ex_rnd None)) = true.
+Proof.
+  cbv zeta. split; [vm_compute; repeat split|]. split; [|vm_compute; repeat split].
+  unfold prefix_at. split; [|split].
+  - repeat constructor; cbn; intros H; repeat (destruct H as [H|H]; try discriminate H); exact H.
+  - intros i. cbn. split.
+    + intros [H|[H|[H|[H|[]]]]]; try discriminate H; inversion H; lia.
+    + intros H. destruct i as [|[|i]]; [tauto|tauto|lia].
+  - intros i. cbn. split.
+    + intros [H|[H|[H|[H|[]]]]]; discriminate H.
+    + intros H. lia.
 Qed.
